@@ -621,9 +621,8 @@ Definition scan_number_rest (first : Z) (r : bytes) : option bytes :=
     match ds3 with [] => Some r3 | _ => Some r6 end
   else Some r3.
 
-(* lexer.scan *)
-Definition scan1 (src : bytes) : sres :=
-  let '(bs, sp) := skip_ws src false in
+(* lexer.scan after the whitespace loop: bs = the input from l.ch on, sp = l.hadSpace *)
+Definition scan_body (bs : bytes) (sp : bool) : sres :=
   match bs with
   | [] => SEof
   | c :: r =>
@@ -677,6 +676,10 @@ Definition scan1 (src : bytes) : sres :=
     else if c =? 124 then (if n =? 124 then two TOr else one TPipe)
     else SIllegal
   end.
+
+(* lexer.scan *)
+Definition scan1 (src : bytes) : sres :=
+  let '(bs, sp) := skip_ws src false in scan_body bs sp.
 
 (* lexer.scanRegex after DIV (eq = false) or DIV_ASSIGN (eq = true): Some (regex, rest) or None *)
 Fixpoint scan_regex_loop (fuel : nat) (bs : bytes) (acc : bytes) : option (bytes * bytes) :=
